@@ -33,6 +33,9 @@
  *                                        (lib/async/console_worker.c, harness/c13/c13w.c) reads them, one read() per blob,
  *                                        enqueues into the real line queue; after each blob the real process_io() console
  *                                        branch dequeues and calls add_console_line()
+ *   snoop on                             another user snoops this one: every telnet read is forwarded to the snooper's
+ *                                        receive_snoop() - one more callback (ordinal shared with the others); `dest` =
+ *                                        the snooper destructs the snooped user
  *   cb <k> err|dest                      the k-th callback into the user object (0-based, counted over the
  *                                        connection) raises an LPC error / destructs the user object
  *
@@ -168,8 +171,34 @@ static void cb_done (struct object_s *ob)
 
 static svalue_t *(*real_apply) (const char *, object_t *, int, int) = apply;
 
+static object_t *c13_snooper = 0;
+/* add_message() announces its own snoop forwarding through the NEOLITH_VERIF hook (phase 1): those receive_snoop()
+ * calls (echo of CR LF, telnet replies - the output side, property C14) always succeed here and are not logged;
+ * the callback scripted by `cb` lines is the input-side one of get_user_data() */
+static int c13_output_snoop = 0;
+static void c13_am_hook (object_t * who, const char *text, int vmessage, int phase)
+{
+  (void) who; (void) text; (void) vmessage;
+  if (phase == 1)
+    c13_output_snoop = 1;
+}
+
 struct svalue_s *c13_apply (const char *fun, struct object_s *ob, int num_arg, int where)
 {
+  if (c13_snooper && ob == (struct object_s *) c13_snooper && !strcmp (fun, APPLY_RECEIVE_SNOOP) && num_arg == 1
+      && sp->type == T_STRING)
+    {
+      if (c13_output_snoop)
+        {
+          c13_output_snoop = 0;
+          pop_n_elems (num_arg);
+          return 0;
+        }
+      out_hex ("snoop", (unsigned char *) sp->u.string, strlen (sp->u.string));
+      pop_n_elems (num_arg);
+      cb_done ((struct object_s *) c13_ob);	/* `dest`: the snooper destructs the user it snoops */
+      return 0;
+    }
   if (ob == c13_ob)
     {
       if (!strcmp (fun, APPLY_PROCESS_INPUT) && num_arg == 1)
@@ -279,6 +308,10 @@ static void make_user (int kind)
   ip->snoop_on = 0;
   ip->snoop_by = 0;
   ip->last_time = current_time;
+#ifdef TRACE
+  ip->trace_level = 0;
+  ip->trace_prefix = 0;
+#endif
 #ifdef OLD_ED
   ip->ed_buffer = 0;
 #endif
@@ -713,7 +746,7 @@ static int c13_cmd (char *line)
       return 1;
     }
   if (!alive ())		/* connection closed earlier: nothing is executed any more */
-    return !strncmp (line, "wpipe ", 6) || !strncmp (line, "getchar", 7) || !strncmp (line, "inputto", 7) || !strcmp (line, "serve") || !strcmp (line, "iflag single") || !strcmp (line, "iflag line") || !strcmp (line, "read") || !strncmp (line, "chunk ", 6)
+    return !strcmp (line, "snoop on") || !strncmp (line, "wpipe ", 6) || !strncmp (line, "getchar", 7) || !strncmp (line, "inputto", 7) || !strcmp (line, "serve") || !strcmp (line, "iflag single") || !strcmp (line, "iflag line") || !strcmp (line, "read") || !strncmp (line, "chunk ", 6)
       || !strcmp (line, "extract") || !strcmp (line, "drain") || !strcmp (line, "finish") || !strncmp (line, "line ", 5);
   if (!strcmp (line, "xprobe"))
     {
@@ -740,6 +773,26 @@ static int c13_cmd (char *line)
   if (!strcmp (line, "serve"))
     {
       do_serve ();
+      return 1;
+    }
+  if (!strcmp (line, "snoop on"))
+    {
+      if (port_kind != PORT_TELNET)
+        return 0;
+      if (!c13_snooper)
+        {
+          char cmd[64] = "clone u2 /c13/user";
+          vh_generic (cmd);
+          c13_snooper = vh_obj ("u2");
+          interactive_t *ip2 = (interactive_t *) DXALLOC (sizeof (interactive_t), TAG_INTERACTIVE, "c13 snooper");
+          memset (ip2, 0, sizeof (interactive_t));
+          ip2->ob = c13_snooper;
+          ip2->fd = -1;
+          ip2->snoop_on = c13_ip;
+          c13_ip->snoop_by = ip2;	/* what new_set_snoop() does */
+          verif_add_message_hook = c13_am_hook;
+        }
+      after_step ();
       return 1;
     }
   if (!strncmp (line, "wpipe ", 6))
@@ -797,8 +850,13 @@ static int c13_cmd (char *line)
       int guard = 0;
       while (sockq_len > 0 && alive () && ++guard < 20000)
         {
+          size_t before = sockq_len;
           do_read ();
           int g2 = 0;
+          /* nothing read and nothing to extract: every further round would be the same (only a tree that holds reads
+           * back without a pending command gets here; the judge reports the unread bytes as `stalled`) */
+          if (sockq_len == before && !do_extract ())
+            break;
           while (do_extract ())
             if (++g2 >= 1100)
               {
